@@ -13,21 +13,28 @@ REGISTRATION = {
     "technique": "Lean 4 proof over an order-abstract sampler model + bit-exact stage-by-stage differential "
                  "correspondence with per-run IEEE contracts",
     "category": "proof",
-    "text": "Kernel-checked theorems about an executable model of greedy/topK/temperature/softmax/topP/minP and the "
-            "cumulative binary-search pick, for every carrier whose comparison is a strict weak order (what float32 "
-            "gives while no NaN arises): argmax at temperature 0, each filter keeps a non-empty prefix of the "
-            "descending list, the picked token lies in minP(topP(topK)), has a positive probability, comes from a "
-            "logit that is not -Inf, and its id is an input index; the result is a function of (logits, params, r) "
-            "and r of the seed (PCG-DXSM modelled bit-exactly). The same generic code is run at IEEE Float32 by the "
-            "oracle and compared with the real package stage by stage on bit patterns; what IEEE-754 must provide "
-            "(order preservation of scaling/softmax, -Inf->0, max->positive, monotone cumulative sums) is checked as "
-            "decidable contracts on every sampled run, and the property clauses are evaluated on the real Sample result.",
+    "text": "Kernel-checked theorems about an executable model of greedy/topK (sort branch and an exact mirror of the "
+            "container/heap branch)/temperature/softmax/topP/minP and the cumulative binary-search pick, for every carrier "
+            "whose comparison is a strict weak order (what float32 gives while no NaN arises), for the pinned and the "
+            "repaired (max-shift) variant: argmax at temperature 0; topK returns tokens of its input on both branches, so "
+            "a returned id is always an index into the logits (unconditional); each filter keeps a non-empty prefix and "
+            "minP is exactly the threshold filter; the pick is the first index reaching the target, never a "
+            "zero-probability entry, never an index panic; the picked token lies in minP(topP(topK)) and comes from a "
+            "logit that is not -Inf; a history of calls on one sampler has no state but the generator (the i-th result "
+            "equals the single-call result with the PCG advanced by the number of drawing calls before it) and is a "
+            "function of (seed, params, logits); PCG-DXSM modelled bit-exactly. The same generic code is run at IEEE "
+            "Float32 by the oracle and compared with the real package on histories of calls on one real Sampler: stage by "
+            "stage on bit patterns, per call with the threaded random number, and the whole history through the model. "
+            "What IEEE-754 must provide is checked as decidable contracts on every call, and every clause of the "
+            "property is evaluated on the real Sample result of every call, on the float32 values the real transforms "
+            "produced.",
     "design_ref": "DESIGN.md §5 C18",
     "note": COMMON_NOTE + "Partial by construction: IEEE-754 rounding/overflow and math.Exp are outside the model "
             "(exp values are taken from the run; contracts re-checked per run); the grammar (cgo llama.cpp) is "
             "modelled as an arbitrary mask and not exercised (no vocabulary file offline); slices.SortFunc's order "
             "inside groups of equal logits is not modelled (compared modulo that order); the heap branch of topK is "
-            "mirrored exactly and validated per run against the IsTopK contract rather than proved.",
+            "mirrored exactly and proved to return k tokens of its input, but that they are the k largest in "
+            "descending order is validated per run (IsTopK contract), not proved.",
 }
 
 MODULES = ["OllamaVerif.Properties.C18", "OllamaVerif.Proofs.Sampler", "OllamaVerif.Model.Sampler"]
@@ -70,9 +77,10 @@ def run(ctx):
         ctx.leanchecker(MODULES)
     return ctx.finish(
         level="proof",
-        rule="seeded random (logit vector class x temperature x topK x topP x minP x seed): 12 vector classes (ties, "
-             "-Inf masks, +Inf, 3e38, denormals, raw bit patterns, NaN, all -Inf, ulp neighbours, peaked), length "
-             "1..4096; distinct = distinct oracle command lines",
+        rule="seeded random histories: one real Sampler (temperature x topK x topP x minP x seed), 1..8 calls with "
+             "related/unrelated logit vectors of 13 classes (ties, -Inf masks, +Inf, 3e38, denormals, raw bit patterns, "
+             "NaN, all -Inf, ulp neighbours, peaked, long tail + masks), length 1..4096; crafted random numbers through a "
+             "fixed rand.Source; directed temperature-0 near-tie search; distinct = distinct oracle command lines",
         explanation="Lean theorems about the order-abstract sampler model; model tied to the code by bit-exact "
                     "comparison of every stage and of the final token given the seeded random number (L1), by "
                     "per-run IEEE contracts, and by the property clauses evaluated on the real Sample result (L2)")
